@@ -87,8 +87,12 @@ impl<'a> IrEmitter<'a> {
                 quote! { false }
             }),
             IrExprKind::Int(n) => {
-                // Emit integers without suffix to let Rust infer the type
-                let lit = if *n >= 0 {
+                // Emit integers without suffix to let Rust infer the type. A literal that does not fit i32 gets an
+                // explicit i64 suffix: under a cast (`(x) as f64`, `(x) as i64`) rustc would otherwise fall back to
+                // i32 and reject the literal as out of range.
+                let lit = if i32::try_from(*n).is_err() {
+                    Literal::i64_suffixed(*n)
+                } else if *n >= 0 {
                     Literal::u64_unsuffixed(*n as u64)
                 } else {
                     Literal::i64_unsuffixed(*n)
